@@ -1,0 +1,17 @@
+//go:build verif
+
+// Contracts for package stats, read by the verification-condition generator in /verif/govc.
+// This file contains comments only; it is compiled only with -tags verif and adds no code.
+
+package stats
+
+/*@
+// Both callbacks of Stats honour the parser's callback protocol: on an error the record is nil and must not
+// be touched; the error stops the count and is handed back.
+func Stats$1
+  props C08 C09 C10
+  refines parser.StopOnErr
+func Stats$2
+  props C08 C09 C10
+  refines parser.StopOnErr
+@*/
